@@ -211,3 +211,12 @@ def snapshot(obj):
         extra[k] = repr(v)
     snap['extra'] = extra
     return snap
+
+
+def violate(rep, key, what, case, cap=12):
+    """`rep.violate` with a per-key cap: the framework keeps at most 500 violations in total, so a known finding
+    that fails on hundreds of generated inputs must not crowd out a new violation found later in the run."""
+    n = rep.dist.get('violations-seen:' + key, 0)
+    rep.dist['violations-seen:' + key] = n + 1
+    if n < cap:
+        rep.violate(key, what, case)
